@@ -94,9 +94,15 @@ SPEC = {
     "nontrivial": lambda ln: ln.startswith("Pb ") or len(ln.split("|")[0].split()) >= 6,
     "trusted_base": [
         "spec_step / spec_entry / spec_lookup / restrict_dc (coq/Model/Tablets.v PART 2) are the property text transcribed",
-        "hook scylla::routing::locator::verif_tablets (pass-through to RawTablet::from_custom_payload, Tablet::from_raw_tablet, "
-        "TabletsInfo::{add_tablet, perform_maintenance}, TableTablets lookups), scylla::cluster::verif_tablets_maintenance "
-        "(pass-through to ClusterState::perform_tablets_maintenance) and scylla::cluster::verif_node::node_without_pool",
+        "hooks (pass-through, #[cfg(scylla_verif)]): scylla::routing::locator::verif_tablets (driver struct around TabletsInfo, "
+        "observations of flags / tablet lists / tablet_for_token / replicas_for_token / dc_replicas_for_token, raw_tablet_from_payload = "
+        "RawTablet::from_custom_payload with the decoded content visible, TabletsInfo::perform_maintenance), "
+        "scylla::cluster::verif_update_tablets (the real RawTablet::from_custom_payload + the real ClusterState::update_tablets on a "
+        "ClusterState value built around the driver's TabletsInfo), scylla::cluster::verif_tablets_maintenance (the real "
+        "ClusterState::perform_tablets_maintenance), scylla::cluster::verif_node::node_without_pool",
+        "the read primitives (read_int, read_cql_bytes, read_count, exact_len) of coq/Model/Cql.v used by coq/Model/TabletsPayload.v",
+        "bsearch / partition_point_bs (C15_bsearch only, not used by the tie) is a hand transcription of core::slice::binary_search_by "
+        "from the NIGHTLY rust-src; the build uses stable 1.95, whose sources are not installed",
         "slice::partition_point is modelled by its contract (index of the partition of a partitioned slice); partitionedness is proved (C15_partitioned)",
         "HashMap/HashSet arguments are association lists with unique keys; Arc identity = (host, generation, dc) triple",
     ],
